@@ -16,7 +16,7 @@ the environment, unless the ghost flag reports a symbol no scope of the new chai
 theorem clone_inv (f : Nat) (h : Heap) (u : Addr) (hi : Inv h)
     (hp : ∀ p, parOf h u = some p → h.tagOf p = some 0) :
     Le h (clone f h u).1 ∧ Inv (clone f h u).1 ∧ (clone f h u).1.tagOf (clone f h u).2 = some 2 :=
-  copyUnit_ok cloneMode (by decide) f h (parOf h u) false u hi (fun p e => Or.inr (hp p e))
+  copyUnit_ok cloneMode (by decide) f h (parOf h u) u hi (fun p e => Or.inr (hp p e))
 
 /-- **clone_scoped**: every symbol occurrence in a cell allocated by the clone is attached to a scope object allocated by the
 clone or to the environment (the parents the clone kept) — never to a scope of the original — provided every symbol name is
